@@ -297,6 +297,21 @@ def Compile.magicComment : Compile → Bool
   | .fileModule _ => Generated.Paths8.magicCommentModulePath
   | _ => false
 
+/-! ### which file a lookup with several directories serves (`TemplateLookup.__init__`, `get_template`) -/
+
+/-- `TemplateLookup.directories`: the configured directories, normalised, in configuration order (regenerated flag;
+`false` = the list went through a set and `iter`, the set's iteration order, is what is searched) -/
+def lookupDirs (keepOrder : Bool) (configured iter : List Str) : List Str :=
+  if keepOrder then configured.map Path.normpath else iter
+
+/-- the loop of `get_template`: the first directory, in list order, under which the file exists -/
+def searchDirs (dirs : List Str) (isFile : Str → Bool) (uri : Str) : Option Str :=
+  (dirs.map fun d => Path.uriToSrc d uri).find? isFile
+
+/-- the file `TemplateLookup(directories=configured).get_template(uri)` loads, when Python iterates sets as `iter` -/
+def lookupFile (configured iter : List Str) (isFile : Str → Bool) (uri : Str) : Option Str :=
+  searchDirs (lookupDirs Generated.Paths8.directoriesKeepOrder configured iter) isFile uri
+
 /-! ### the module preamble (`write_toplevel`) -/
 
 structure ModCfg where
